@@ -51,12 +51,18 @@ enum op_kind
     OP_ASSIGN_STRING,
     OP_ASSIGN_RANGE,
     OP_CLEAR,
+    // the value argument is a reference to an element of the same view (legal for a vector: v.insert(v.begin(), v.back()))
+    OP_PUSH_BACK_ALIAS,
+    OP_INSERT_VAL_ALIAS,
+    OP_INSERT_COUNT_ALIAS,
+    OP_RESIZE_VAL_ALIAS,
     OP_KINDS
 };
 static const char* const op_names[OP_KINDS] = {
     "push_back", "pop_back", "insert(pos,v)", "insert(pos,n,v)", "insert(pos,fwd_it)", "insert(pos,input_it)",
     "insert(pos,ilist)", "erase(pos)", "erase(first,last)", "resize(n)", "resize(n,v)", "resize(n,default_init)",
-    "assign(n,v)", "assign(first,last)", "assign(input_it)", "assign(ilist)", "assign_string", "assign_range", "clear"};
+    "assign(n,v)", "assign(first,last)", "assign(input_it)", "assign(ilist)", "assign_string", "assign_range", "clear",
+    "push_back(self[i])", "insert(pos,self[i])", "insert(pos,n,self[i])", "resize(n,self[i])"};
 static unsigned long long g_per_op[OP_KINDS];
 
 struct op
@@ -81,7 +87,15 @@ static std::string describe(const op& o)
     return buf;
 }
 
-// single-pass input iterator
+// genuinely single-pass input iterator (istream_iterator semantics): all copies share one source position, reading through
+// any copy consumes the source, the current element is cached in the iterator
+template<typename V>
+struct sp_source
+{
+    const V* cur;
+    const V* end;
+};
+
 template<typename V>
 struct input_it
 {
@@ -90,29 +104,49 @@ struct input_it
     using difference_type = std::ptrdiff_t;
     using pointer = const V*;
     using reference = const V&;
-    const V* p;
+    sp_source<V>* src;
+    V cached;
+    bool at_end;
+    input_it() : src(nullptr), cached(), at_end(true)
+    {
+    }
+    explicit input_it(sp_source<V>& s) : src(&s), cached(), at_end(false)
+    {
+        read();
+    }
+    void read()
+    {
+        if(src->cur == src->end)
+        {
+            at_end = true;
+        }
+        else
+        {
+            cached = *src->cur++;
+        }
+    }
     reference operator*() const
     {
-        return *p;
+        return cached;
     }
     input_it& operator++()
     {
-        ++p;
+        read();
         return *this;
     }
     input_it operator++(int)
     {
         auto t = *this;
-        ++p;
+        read();
         return t;
     }
     bool operator==(const input_it& o) const
     {
-        return p == o.p;
+        return at_end == o.at_end;
     }
     bool operator!=(const input_it& o) const
     {
-        return p != o.p;
+        return at_end != o.at_end;
     }
 };
 
@@ -223,6 +257,30 @@ struct tester
         case OP_ASSIGN_STRING:
         case OP_ASSIGN_RANGE: model.assign(in.begin(), in.end()); return none;
         case OP_CLEAR: model.clear(); return none;
+        case OP_PUSH_BACK_ALIAS:
+        {
+            const V av = model[o.v];
+            model.push_back(av);
+            return none;
+        }
+        case OP_INSERT_VAL_ALIAS:
+        {
+            const V av = model[o.v];
+            auto it = model.insert(model.begin() + o.a, av);
+            return static_cast<std::size_t>(it - model.begin());
+        }
+        case OP_INSERT_COUNT_ALIAS:
+        {
+            const V av = model[o.v];
+            auto it = model.insert(model.begin() + o.a, o.b, av);
+            return static_cast<std::size_t>(it - model.begin());
+        }
+        case OP_RESIZE_VAL_ALIAS:
+        {
+            const V av = model[o.v];
+            model.resize(o.a, av);
+            return none;
+        }
         }
         return none;
     }
@@ -251,8 +309,10 @@ struct tester
             return static_cast<std::size_t>(a.insert(a.begin() + o.a, fl.begin(), fl.end()) - a.begin());
         }
         case OP_INSERT_INPUT:
-            return static_cast<std::size_t>(
-                a.insert(a.begin() + o.a, input_it<V>{in.data()}, input_it<V>{in.data() + in.size()}) - a.begin());
+        {
+            sp_source<V> src{in.data(), in.data() + in.size()};
+            return static_cast<std::size_t>(a.insert(a.begin() + o.a, input_it<V>{src}, input_it<V>{}) - a.begin());
+        }
         case OP_INSERT_ILIST:
             switch(in.size())
             {
@@ -268,7 +328,12 @@ struct tester
         case OP_RESIZE_DEFAULT: a.resize(static_cast<size_type>(o.a), sbepp::default_init); return none;
         case OP_ASSIGN_COUNT: a.assign(static_cast<size_type>(o.a), v); return none;
         case OP_ASSIGN_ITER: a.assign(in.begin(), in.end()); return none;
-        case OP_ASSIGN_INPUT_ITER: a.assign(input_it<V>{in.data()}, input_it<V>{in.data() + in.size()}); return none;
+        case OP_ASSIGN_INPUT_ITER:
+        {
+            sp_source<V> src{in.data(), in.data() + in.size()};
+            a.assign(input_it<V>{src}, input_it<V>{});
+            return none;
+        }
         case OP_ASSIGN_ILIST:
             switch(in.size())
             {
@@ -286,6 +351,13 @@ struct tester
         }
         case OP_ASSIGN_RANGE: a.assign_range(in); return none;
         case OP_CLEAR: a.clear(); return none;
+        case OP_PUSH_BACK_ALIAS: a.push_back(a[static_cast<size_type>(o.v)]); return none;
+        case OP_INSERT_VAL_ALIAS:
+            return static_cast<std::size_t>(a.insert(a.begin() + o.a, a[static_cast<size_type>(o.v)]) - a.begin());
+        case OP_INSERT_COUNT_ALIAS:
+            return static_cast<std::size_t>(
+                a.insert(a.begin() + o.a, static_cast<size_type>(o.b), a[static_cast<size_type>(o.v)]) - a.begin());
+        case OP_RESIZE_VAL_ALIAS: a.resize(static_cast<size_type>(o.a), a[static_cast<size_type>(o.v)]); return none;
         }
         return none;
     }
@@ -463,6 +535,22 @@ struct tester
             out.push_back(op{OP_ASSIGN_RANGE, 0, 0, 0, in});
         }
         out.push_back(op{OP_CLEAR, 0, 0, 0, {}});
+        for(std::size_t i = 0; i < n; i++)
+        {
+            const unsigned char ai = static_cast<unsigned char>(i);
+            if(n + 1 <= limit)
+                out.push_back(op{OP_PUSH_BACK_ALIAS, 0, 0, ai, {}});
+            for(std::size_t pos = 0; pos <= n; pos++)
+            {
+                if(n + 1 <= limit)
+                    out.push_back(op{OP_INSERT_VAL_ALIAS, pos, 0, ai, {}});
+                for(std::size_t cnt = 0; cnt <= 2; cnt++)
+                    if(n + cnt <= limit)
+                        out.push_back(op{OP_INSERT_COUNT_ALIAS, pos, cnt, ai, {}});
+            }
+            for(std::size_t cnt = 0; cnt <= n + 2 && cnt <= limit; cnt++)
+                out.push_back(op{OP_RESIZE_VAL_ALIAS, cnt, 0, ai, {}});
+        }
     }
 
     void dfs(int depth)
@@ -550,6 +638,22 @@ struct tester
             {
                 const std::size_t grow = n + rnd(5);
                 o.a = (rnd(4) == 0) ? rnd(capn + 1) : (grow <= capn ? grow : capn);
+            }
+                break;
+            case OP_PUSH_BACK_ALIAS: valid = room >= 1 && n >= 1; o.v = static_cast<unsigned char>(rnd(n)); break;
+            case OP_INSERT_VAL_ALIAS: valid = room >= 1 && n >= 1; o.a = rnd(n + 1); o.v = static_cast<unsigned char>(rnd(n)); break;
+            case OP_INSERT_COUNT_ALIAS:
+                valid = n >= 1;
+                o.a = rnd(n + 1);
+                o.b = rnd(room < 9 ? room + 1 : 9);
+                o.v = static_cast<unsigned char>(rnd(n));
+                break;
+            case OP_RESIZE_VAL_ALIAS:
+            {
+                valid = n >= 1;
+                const std::size_t grow = n + rnd(5);
+                o.a = (rnd(4) == 0) ? rnd(capn + 1) : (grow <= capn ? grow : capn);
+                o.v = static_cast<unsigned char>(rnd(n));
             }
                 break;
             case OP_ASSIGN_ILIST: inlen = inlen % 4; break;
